@@ -38,17 +38,80 @@ namespace nmtools::utl
             return static_cast<const Derived&>(*this);
         }
 
+        /**
+         * @brief End the lifetime of the active alternative (no-op for trivially destructible types).
+         * The storage holds no object afterwards, the tag is left as is.
+         */
+        constexpr void destroy_active() noexcept
+        {
+            using left_type  = typename Derived::left_type;
+            using right_type = typename Derived::right_type;
+            if (self().tag == Derived::LEFT) {
+                if constexpr (!meta::is_trivially_destructible_v<left_type>) {
+                    self().left.~left_type();
+                }
+            } else {
+                if constexpr (!meta::is_trivially_destructible_v<right_type>) {
+                    self().right.~right_type();
+                }
+            }
+        }
+
+        /**
+         * @brief Make `val` the value of this either (T is the left or the right type).
+         * A live object of the same alternative is assigned to (or rebuilt when T is not copy-assignable),
+         * otherwise the active alternative is destroyed and a copy of `val` is constructed in place.
+         */
+        template <typename T>
+        constexpr void assign_value(const T& val) noexcept
+        {
+            using left_type = typename Derived::left_type;
+            if constexpr (meta::is_same_v<T,left_type>) {
+                if (self().tag == Derived::LEFT) {
+                    if (&self().left == &val) {
+                        return;
+                    }
+                    if constexpr (meta::is_copy_assignable_v<T>) {
+                        self().left = val;
+                    } else {
+                        destroy_active();
+                        new(&self().left) T(val);
+                    }
+                } else {
+                    destroy_active();
+                    new(&self().left) T(val);
+                    self().tag = Derived::LEFT;
+                }
+            } else {
+                if (self().tag == Derived::RIGHT) {
+                    if (&self().right == &val) {
+                        return;
+                    }
+                    if constexpr (meta::is_copy_assignable_v<T>) {
+                        self().right = val;
+                    } else {
+                        destroy_active();
+                        new(&self().right) T(val);
+                    }
+                } else {
+                    destroy_active();
+                    new(&self().right) T(val);
+                    self().tag = Derived::RIGHT;
+                }
+            }
+        }
+
         constexpr Derived& operator=(const Derived& other) noexcept
         {
-            if (other.self().tag == Derived::LEFT) {
-                self().left = other.self().left;
-                self().tag  = Derived::LEFT;
-                return self();
-            } else {
-                self().right = other.self().right;
-                self().tag   = Derived::RIGHT;
+            if (&other == &self()) {
                 return self();
             }
+            if (other.self().tag == Derived::LEFT) {
+                assign_value(other.self().left);
+            } else {
+                assign_value(other.self().right);
+            }
+            return self();
         }
 
         template <typename T>
@@ -59,13 +122,8 @@ namespace nmtools::utl
             static_assert( meta::is_same_v<T,left_type> || meta::is_same_v<T,right_type> || meta::is_same_v<T,Derived>
                 , "unsupported type for either assignment"
             );
-            if constexpr (meta::is_same_v<T,left_type>) {
-                self().left = val;
-                self().tag  = Derived::LEFT;
-                return self();
-            } else if constexpr (meta::is_same_v<T,right_type>) {
-                self().right = val;
-                self().tag   = Derived::RIGHT;
+            if constexpr (meta::is_same_v<T,left_type> || meta::is_same_v<T,right_type>) {
+                assign_value(val);
                 return self();
             } else {
                 return operator=(static_cast<Derived>(val));
@@ -174,17 +232,7 @@ namespace nmtools::utl
 
         constexpr either& operator=(const either& other) noexcept
         {
-            if (other.tag != tag) {
-                if (other.tag == LEFT) {
-                    // left = left_type{};
-                    new(&this->left) left_t{};
-                    tag = LEFT;
-                } else {
-                    // right = right_type{};
-                    new(&this->right) right_t{};
-                    tag = RIGHT;
-                }
-            }
+            // base destroys the active alternative when the tags differ and copy-constructs the new one
             return base::operator=(other);
         }
     };
@@ -226,23 +274,19 @@ namespace nmtools::utl
         
         constexpr either(const either& other)
         {
+            // no object lives in the union yet: construct, do not assign
             tag = other.tag;
             if (other.tag == LEFT) {
-                if constexpr (meta::is_copy_assignable_v<left_t>) {
-                    left = other.left;
-                } else {
-                    new(&this->left) left_t(other.left);
-                }
+                new(&this->left) left_t(other.left);
             } else {
-                if constexpr (meta::is_copy_assignable_v<right_t>) {
-                    right = other.right;
-                } else {
-                    new(&this->right) right_t(other.right);
-                }
+                new(&this->right) right_t(other.right);
             }
         }
 
-        ~either() {}
+        ~either()
+        {
+            base::destroy_active();
+        }
 
         template <typename U>
         constexpr either& operator=(const U& val) noexcept
@@ -252,17 +296,7 @@ namespace nmtools::utl
 
         constexpr either& operator=(const either& other) noexcept
         {
-            if (other.tag != tag) {
-                if (other.tag == LEFT) {
-                    // left = left_type{};
-                    new(&this->left) left_t{};
-                    tag = LEFT;
-                } else {
-                    // right = right_type{};
-                    new(&this->right) right_t{};
-                    tag = RIGHT;
-                }
-            }
+            // base destroys the active alternative when the tags differ and copy-constructs the new one
             return base::operator=(other);
         }
     }; // either
@@ -303,19 +337,12 @@ namespace nmtools::utl
         
         constexpr either(const either& other)
         {
+            // no object lives in the union yet: construct, do not assign
             tag = other.tag;
             if (other.tag == LEFT) {
-                if constexpr (meta::is_copy_assignable_v<left_t>) {
-                    left = other.left;
-                } else {
-                    new(&this->left) left_t(other.left);
-                }
+                new(&this->left) left_t(other.left);
             } else {
-                if constexpr (meta::is_copy_assignable_v<right_t>) {
-                    right = other.right;
-                } else {
-                    new(&this->right) right_t(other.right);
-                }
+                new(&this->right) right_t(other.right);
             }
         }
 
@@ -327,17 +354,7 @@ namespace nmtools::utl
 
         constexpr either& operator=(const either& other) noexcept
         {
-            if (other.tag != tag) {
-                if (other.tag == LEFT) {
-                    // left = left_type{};
-                    new(&this->left) left_t{};
-                    tag = LEFT;
-                } else {
-                    // right = right_type{};
-                    new(&this->right) right_t{};
-                    tag = RIGHT;
-                }
-            }
+            // base destroys the active alternative when the tags differ and copy-constructs the new one
             return base::operator=(other);
         }
     }; // either
